@@ -21,10 +21,10 @@ Requests: method in {GET, POST, OPTIONS, LOCK, HEAD, WEBSOCKET (meta), BOGUS} x 
 (each prefix, its boundary /a vs /ab vs /a/, nested, digits, a miss).
 
 Bound: histories of length <= 3 (quick) / <= 4 (thorough); the alphabet shrinks
-with the length -- nested alphabets FULL(144, all 32 method subsets) > MID(33) >
+with the length -- nested alphabets FULL(149, all 32 method subsets) > MID(37) >
 CORE(13) > MIN(10), see `alphabets()`:
-  quick    FULL^1 + MID^2  + CORE^3           = 3 431 histories
-  thorough FULL^1 + FULL^2 + MID^3  + MIN^4   = 66 818 histories
+  quick    FULL^1 + MID^2  + CORE^3           = 3 716 histories
+  thorough FULL^1 + FULL^2 + MID^3  + MIN^4   = 83 004 histories
 every history over the stated alphabet of its length is run -- no sampling.
 
 Oracle: `Model` -- a list of registrations; dispatch computed from the list by
@@ -97,7 +97,7 @@ def sink_prefixes(nm):
 def paths(nm):
     L, O, F = nm['lit'], nm['oth'], nm['file']
     return ['/', '/' + L, '/%s/' % L, '/%sb' % L, '/%s/5' % L, '/%s/%s' % (L, F), '/%s/5/6' % L,
-            '/5', '/57k', '/' + O, '/%s/%s' % (O, F), '/%s/%s' % (O, nm['only0']), '/zz/y', '/zz']
+            '/5', '/57k', '/' + O, '/%s/%s' % (O, F), '/%s/%s' % (O, nm['only0']), '/zz/y', '/zz', '/' + F]
 
 
 # ---------------------------------------------------------------------------
@@ -171,7 +171,19 @@ class Model:
             self.sinks.append((idx, op[1]))
             return 'ok'
         if k == 'F':
-            self.statics.append((idx, '/' + self.nm[op[1]], op[2], self.nm['file'] if op[3] else None))
+            # a static route mounted at the root: every path lies below it
+            prefix = '' if op[1] == 'root' else '/' + self.nm[op[1]]
+            self.statics.append((idx, prefix, op[2], self.nm['file'] if op[3] else None))
+            return 'ok'
+        if k == 'SS':
+            # ONE resource object registered twice on one template: without and with the suffix, in either order;
+            # the later registration is the route
+            plain, suff = KINDS['PX']
+            if op[2] == 'suffix-last':
+                impl = {m: 'on_%s_%s' % (m.lower(), self.nm['sfx']) for m in suff}
+            else:
+                impl = {m: 'on_' + m.lower() for m in plain}
+            self.routes[self.tm[op[1]]] = (idx, impl)
             return 'ok'
         if k == 'B':
             return 'rejected'
@@ -366,9 +378,18 @@ class Subject:
                 a.add_route(self.tm[op[1]], res)
         elif k == 'K':
             a.add_sink(make_sink(idx, self.is_async, log), self.sp[op[1]])
+        elif k == 'SS':
+            plain, suff = KINDS['PX']
+            res = make_resource(idx, plain, suff, nm['sfx'], self.is_async, log)
+            if op[2] == 'suffix-last':
+                a.add_route(self.tm[op[1]], res)
+                a.add_route(self.tm[op[1]], res, suffix=nm['sfx'])
+            else:
+                a.add_route(self.tm[op[1]], res, suffix=nm['sfx'])
+                a.add_route(self.tm[op[1]], res)
         elif k == 'F':
             # the prefix may be registered with a trailing slash: the same route (the documented normalisation)
-            pfx = '/' + nm[op[1]] + ('/' if len(op) > 4 else '')
+            pfx = '/' if op[1] == 'root' else '/' + nm[op[1]] + ('/' if len(op) > 4 else '')
             if op[3]:
                 a.add_static_route(pfx, self.dirs[op[2]], fallback_filename=nm['file'])
             else:
@@ -469,6 +490,8 @@ def alphabets():
     for p in ('lit', 'oth'):
         for d in (0, 1):
             full.append(('F', p, d, False))
+    full += [('F', 'root', 0, False), ('F', 'root', 1, True), ('SS', 'lit', 'suffix-last'), ('SS', 'lit', 'suffix-first'),
+             ('SS', 'litf', 'suffix-last')]
     full += [('F', 'oth', 1, True), ('F', 'lit', 0, True), ('B', 'sink'), ('B', 'lit'),
              ('F', 'oth', 0, True, 'slash'), ('F', 'lit', 1, False, 'slash')]
 
@@ -479,6 +502,7 @@ def alphabets():
            ('S', 'litf', 'X', True), ('S', 'litf', 'N', True), ('S', 'lit', 'PX', False)]
     mid += [('K', key) for key in ('root', 'lit', 'litc', 'num', 'rest', 'oth', 'opt', 'litci')]
     mid += [('R', 'lit', ('GET',), 'falsy'), ('R', 'litf', (), 'falsy')]
+    mid += [('F', 'root', 0, False), ('F', 'root', 1, True), ('SS', 'lit', 'suffix-last'), ('SS', 'lit', 'suffix-first')]
     mid += [('F', 'lit', 0, False), ('F', 'lit', 1, False), ('F', 'oth', 0, False), ('F', 'oth', 1, False),
             ('F', 'oth', 1, True), ('B', 'sink'), ('F', 'oth', 0, True, 'slash')]
 
